@@ -578,6 +578,13 @@ fn observe_case(report: &Report, c: &RtCase, reasons: &Mutex<BTreeSet<u8>>) {
         if g.is_empty() {
             report.count("rt.receipt_group.empty");
         }
+        let failed = g
+            .iter()
+            .any(|r| matches!(r, Receipt::Revert { .. } | Receipt::Panic { .. }));
+        if failed && g.iter().any(|r| r.message_id().is_some()) {
+            // its messages must NOT be committed to by the header
+            report.count("rt.reverted_group_with_message_out");
+        }
         for r in g {
             report.count(&format!("rt.receipt.{}", receipt_variant_name(r)));
             match r {
@@ -959,9 +966,9 @@ fn c43(args: &Args, report: &Report) {
     let reasons: Arc<Mutex<BTreeSet<u8>>> = Default::default();
 
     let rt_shards = args.by_tier(16usize, 64);
-    let rt_iters = args.by_tier(500u64, 5000);
+    let rt_iters = args.by_tier(4000u64, 40_000);
     let st_shards = args.by_tier(16usize, 64);
-    let st_seqs = args.by_tier(40u64, 600);
+    let st_seqs = args.by_tier(300u64, 3000);
 
     if let Some(rp) = &replay {
         // re-execute exactly the recorded case
@@ -1031,8 +1038,8 @@ fn c43(args: &Args, report: &Report) {
     );
 
     if selftest == 0 {
-        report.require("rt.cases", args.by_tier(6000, 200_000));
-        report.require("rt.ok.struct", args.by_tier(5000, 150_000));
+        report.require("rt.cases", args.by_tier(60_000, 2_000_000));
+        report.require("rt.ok.struct", args.by_tier(50_000, 1_500_000));
         for k in ["Script", "Create", "Mint", "Upgrade", "Upload", "Blob"] {
             report.require(&format!("rt.tx.{k}"), 500);
         }
@@ -1074,11 +1081,12 @@ fn c43(args: &Args, report: &Report) {
             report.require(&format!("rt.receipt.{k}"), 500);
         }
         // every reason the VM can emit (the decoded set of all 256 reason bytes)
-        report.require("rt.panic_reasons_distinct", 60);
+        report.require("rt.panic_reasons_distinct", 67);
         report.require("rt.receipt.data.none", 100);
         report.require("rt.receipt.data.empty", 100);
         report.require("rt.blocks_with_outbox_messages", 200);
-        report.require("store.ops", args.by_tier(10_000, 100_000));
+        report.require("rt.reverted_group_with_message_out", 200);
+        report.require("store.ops", args.by_tier(100_000, 1_000_000));
         report.require("store.accepted.next", 2000);
         report.require("store.accepted.first", 500);
         report.require("store.rejected.repeat", 300);
